@@ -30,15 +30,15 @@ NAMINGS = {
 }
 
 
-def graph_sdl(n, edges, oneof, naming="plain"):
-    """edges: dict (i, j) -> list of kind names; oneof: tuple of bools."""
-    parts = ["schema { query: Q }", "type Q { f(a: In0): Int }"]
+def graph_sdl(n, edges, oneof, naming="plain", tname="In%d"):
+    """edges: dict (i, j) -> list of kind names; oneof: tuple of bools; tname: pattern of the input type names."""
+    parts = ["schema { query: Q }", "type Q { f(a: %s): Int }" % (tname % 0)]
     for i in range(n):
         fields = ["v: Int"]
         for j in range(n):
             for k, kind in enumerate(edges.get((i, j), [])):
-                fields.append("%s: %s" % (NAMINGS[naming](j, k), KINDS[kind] % ("In%d" % j)))
-        parts.append("input In%d%s { %s }" % (i, " @oneOf" if oneof[i] else "", " ".join(fields)))
+                fields.append("%s: %s" % (NAMINGS[naming](j, k), KINDS[kind] % (tname % j)))
+        parts.append("input %s%s { %s }" % (tname % i, " @oneOf" if oneof[i] else "", " ".join(fields)))
     return "\n".join(parts) + "\n"
 
 
@@ -314,6 +314,11 @@ def run(tier):
                     graphs.append((n, edges, oneof))
                     reqs.append({"op": "gen", "schema_path": scratch_file(graph_sdl(n, edges, oneof, naming), "graphql", "c12"), "query_text": query,
                                  "options": DEFAULT_OPTS, "tokens": False, "edges": True})
+            # type names that the rust normalization rewrites (tree_in0 -> TreeIn0): the indirection must follow the type
+            variant_of[len(graphs)] = "snake_case type names under rust normalization"
+            graphs.append((n, edges, oneof))
+            reqs.append({"op": "gen", "schema_path": scratch_file(graph_sdl(n, edges, oneof, tname="tree_in%d"), "graphql", "c12"),
+                         "query_text": query.replace("In0", "tree_in0"), "options": ALT, "tokens": False, "edges": True})
             if n == 1 or all(tuple(v) in ((), ("T",)) for v in edges.values()):
                 # skip-none: compiled below, the JSON must not show the indirection either (a None member is omitted)
                 variant_of[len(graphs)] = "skip_serializing_none"
